@@ -11,7 +11,8 @@ ASSUMPTIONS = ASSUME_SESSION + ["partial in the schedules dimension: the prompt 
 RULE = ("tame/app sessions at configured widths 1..120 with long titles, texts with tabs and other control blanks, long prompts, paging (heights 4..30); oracle on the raw stdout: "
         "no control character that the application's own strings do not contain, every show_all preceded by the two-line separator of exactly the width unless disabled, "
         "every line (ignoring trailing blanks, outside the crash dump) within the width; the exact byte stream is compared with the model; non-trivial = >= 2 screens drawn"
-        ' Later rounds: unnumbered lists showing one widget object in several cells.')
+        ' Later rounds: unnumbered lists showing one widget object in several cells; check boxes with tick marks of several characters in windows and lists; sessions in which '
+        'the application changes the configured width while it runs (judged by the oracle only: separator and lines follow the width in force).')
 
 TEXTS = [None, "hello", "line\n" * 5, "a\tb\tc " * 6, "word " * 40, "x" * 150, "tab\there\rcr\x0bvt\x0cff", "ünïcödé " * 12, "a-b " * 30, "  leading and trailing  ", "\n\nblank lines\n\n"]
 
@@ -55,6 +56,16 @@ def generate(rnd, tier):
             for i in rnd.sample(range(len(items)), min(len(items), rnd.randint(1, 4))):
                 if i > j: items[i] = ["ref", j]
         cases.append(pure_cc({"op": "tree", "tree": ["list", rnd.random() < 0.5, k, None, 3, kp, items], "ops": [["render", w]]}))
+    # check boxes (tick marks of one or several characters, long titles and descriptions that wrap) on their own, in windows and in unforced lists
+    for _ in range(500 if tier == "quick" else 5000):
+        w = rnd.randint(8, 100)
+        def box(): return ["checkbox", rnd.choice(["x", "*", "ok", "yes", "+"]), rnd.choice([None, "title", "a long title here " * rnd.randint(1, 6), "t" * rnd.randint(1, 2 * w)]),
+                           rnd.choice([None, "desc text", "description " * rnd.randint(1, 10), "d" * rnd.randint(1, 2 * w)]), rnd.random() < 0.7]
+        shape = rnd.random()
+        if shape < 0.3: tree = ["window", rnd.choice([None, "T"]), [box() for _ in range(rnd.randint(1, 3))]]
+        elif shape < 0.7: tree = ["list", rnd.random() < 0.5, rnd.randint(1, 2), None, rnd.randint(1, 3), rnd.choice([None, ["", ") ", 1]]), [box() for _ in range(rnd.randint(1, 5))]]
+        else: tree = ["window", None, [["list", False, 1, None, 1, ["", ") ", 1], [box() for _ in range(rnd.randint(1, 3))]]]]
+        cases.append(pure_cc({"op": "tree", "tree": tree, "ops": [["render", w]], "_boxes": True}))
     return cases
 
 
@@ -156,5 +167,5 @@ def monitor_resized(case, obs):
 
 
 def nontrivial(case, obs):
-    if case["op"] == "tree": return len(case["tree"][6]) >= 10
+    if case["op"] == "tree": return case.get("_boxes") or len(case["tree"][6]) >= 10
     return sum(1 for e in obs["log"] if e[0] == "cb" and e[2] == "show") >= 2
